@@ -6,7 +6,7 @@
 From Coq Require Import ZArith QArith Qpower Qabs List String Bool.
 Require Import QV.Common.Outcome QV.Common.DecC02 QV.Common.UnitsC03.
 Require Import QV.Gen.Codata2014 QV.Gen.Codata2018 QV.Gen.UregDefs.
-Require Import QV.Model.Units QV.Proofs.Units.
+Require Import QV.Model.Units QV.Model.UnitsText QV.Proofs.Units.
 Import ListNotations.
 Open Scope string_scope.
 Open Scope Q_scope.
@@ -147,7 +147,7 @@ Proof.
 Qed.
 
 (** ** The 19 au_* units are the products of au_charge (e), au_length (a0), au_energy (E_h), au_action (hbar) and
-    au_mass (m_e) they should be — exponents written by hand — to CODATA's printed precision (1e-8 relative). *)
+    au_mass (m_e) they should be — exponents written by hand — to 1e-9 relative (measured worst 6.6e-10, CODATA prints 10 digits). *)
 Definition au_products : list (string * (Z * Z * Z * Z * Z)) :=     (* e, a0, E_h, hbar, m_e *)
   [ ("au_1st_hyperpolarizability", (3, 3, -2, 0, 0)); ("au_2nd_hyperpolarizability", (4, 4, -3, 0, 0));
     ("au_action", (0, 0, 0, 1, 0)); ("au_charge_density", (1, -3, 0, 0, 0)); ("au_current", (1, 0, 1, -1, 0));
@@ -166,12 +166,12 @@ Definition au_expr (x : Z * Z * Z * Z * Z) : uexpr :=
 
 Definition au_ok (c : cctx) (x : string * (Z * Z * Z * Z * Z)) : bool :=
   match conv_ctx c (UAtom "" (fst x)) (au_expr (snd x)) with
-  | Ok v => rel_close (1 # 10 ^ 8) v 1
+  | Ok v => rel_close (1 # 10 ^ 9) v 1
   | Err _ => false
   end.
 
 Theorem C03_au_units_consistent : forall c u x, In (u, x) au_products ->
-  exists v, conv_ctx c (UAtom "" u) (au_expr x) = Ok v /\ Qabs (v - 1) <= (1 # 10 ^ 8) * Qabs 1.
+  exists v, conv_ctx c (UAtom "" u) (au_expr x) = Ok v /\ Qabs (v - 1) <= (1 # 10 ^ 9) * Qabs 1.
 Proof.
   intros c u x Hin.
   assert (A : forallb (au_ok c) au_products = true) by (destruct c; vm_compute; reflexivity).
@@ -373,6 +373,21 @@ Qed.
 Theorem C03_all_named_bridges_covered : List.length physics_constants = List.length named_edges.
 Proof. vm_compute. reflexivity. Qed.
 
+(** ** Reading text (Model/UnitsText.v): precedence, juxtaposition, symbol/alias/prefix resolution — pinned instances; the
+    general tie is the text stream of the correspondence (the model reads the same strings as the implementation). *)
+Theorem C03_text_reader_examples :
+  parse_text "kcal/mol" = inr (UDiv (UAtom "kilo" "calorie") (UAtom "" "mole"))
+  /\ parse_text "1/m s" = inr (UMul (UDiv (UNum 1) (UAtom "" "meter")) (UAtom "" "second"))
+  /\ parse_text "2 m s**2" = inr (UMul (UMul (UNum 2) (UAtom "" "meter")) (UPow (UAtom "" "second") 2))
+  /\ parse_text "cm^-1" = parse_text "((centimeter) ** (-1))"
+  /\ parse_text "min" = inr (UAtom "" "minute") /\ parse_text "m in" = inr (UMul (UAtom "" "meter") (UAtom "" "inch"))
+  /\ parse_text "mK" = inr (UAtom "milli" "kelvin") /\ parse_text "MK" = inr (UAtom "mega" "kelvin")
+  /\ parse_text "Pa" = inr (UAtom "" "pascal") /\ parse_text "pA" = inr (UAtom "pico" "ampere")
+  /\ parse_text "Hartree" = inl Undefined
+  /\ conv_text C2014 "m s^-1" "Hz" = Err Dimensionality /\ conv_text C2014 "ms^-1" "Hz" = Ok 1000
+  /\ conv_text C2014 "10 feet" "meter" = Ok (381 # 125).
+Proof. repeat split; vm_compute; reflexivity. Qed.
+
 (** ** Examples: the hypotheses are inhabited *)
 Example C03_ex_parse :
   parse (reg C2014) (UDiv (UMul (UNum 3) (UAtom "kilo" "calorie")) (UAtom "" "mole"))
@@ -406,3 +421,4 @@ Print Assumptions C03_unprefixed_bridge_examples.
 Print Assumptions C03_default_route_bridge.
 Print Assumptions C03_bridge_constants_are_physics.
 Print Assumptions C03_all_named_bridges_covered.
+Print Assumptions C03_text_reader_examples.
